@@ -5,8 +5,10 @@ import os
 
 V = os.path.dirname(os.path.dirname(os.path.abspath(__file__)))
 props = [json.loads(l) for l in open(os.path.join(V, 'properties.jsonl'))]
-COMMON_NOTE = ('Trusted: Coq 8.16.1 kernel, the hand-written Gallina model, ExtrOcamlBasic extraction + '
-               'ocaml/driver.ml, the Python correspondence harness (sampled tie between model and /repo/src). ')
+COMMON_NOTE = ('Trusted: Coq 8.16.1 kernel, the hand-written Gallina model, the standard-library extraction '
+               '(ExtrOcamlBasic + ExtrOcamlZBigInt for bin/mrun, cross-checked every run against the ExtrOcamlBasic-only '
+               'bin/mrun_ref; directives listed verbatim in TRUSTED_BASE.md), the OCaml drivers, the Python correspondence '
+               'harness (sampled tie between model and /repo/src; generators widened over four rounds of seeded changes, see DESIGN.md S.4). ')
 
 # id -> (technique, level text, level note, design ref)
 CLAIMED = {
@@ -69,7 +71,7 @@ CLAIMED = {
          'classes and checks every read against the model of the original input plus np.shares_memory between all arrays.',
          COMMON_NOTE + 'That NumPy copy/arithmetic/fancy-indexing allocate fresh arrays is an assumption, observed by shares_memory each run.',
          'DESIGN.md section 6 C02'),
- 'C03': ('Coq proof (row sums and stationarity of the projection on executable rational matrices, under run-time certified inverses; MathComp field-generic second proof) + differential correspondence within 1e-8',
+ 'C03': ('Coq proof (row sums and stationarity of the projection on executable rational matrices; totality on ergodic input: Gauss-Jordan completeness, existence of the stationary vector, invertibility of both matrices; MathComp field-generic second proof of the identities) + differential correspondence within 1e-8',
          'proof: for the executable Hummer-Szabo formula on exact rationals, whenever it returns a matrix rows sum to one and '
          'pi A is stationary (positive=False); positive=True gives non-negative rows summing to one; refusal of non-ergodic micro models and labels are theorems; and it ALWAYS returns a matrix on the '
          'domain of the property: for a stochastic micro matrix with an entrywise positive power and any surjective assignment the stationary vector is found and both inverses exist '
@@ -158,8 +160,8 @@ m = {
  'engines': [
   {'name': 'coq-model', 'path': 'coq/', 'serves_properties': sorted(CLAIMED),
    'kind_free_text': 'hand-written Gallina model (coq/Model, coq/Spec), lemmas (coq/Proofs), property theorems (coq/Props/CXX.v), Coq 8.16.1'},
-  {'name': 'mrun', 'path': 'bin/mrun (built by setup.sh from coq/Run/Extract.v + ocaml/driver.ml)', 'serves_properties': sorted(CLAIMED),
-   'kind_free_text': 'OCaml extraction of the model dispatcher Run.run (ExtrOcamlBasic only)'},
+  {'name': 'mrun', 'path': 'bin/mrun (built by setup.sh from coq/Run/ExtractFast.v + ocaml/driverfast.ml); bin/mrun_ref (coq/Run/Extract.v + ocaml/driver.ml)', 'serves_properties': sorted(CLAIMED),
+   'kind_free_text': 'OCaml extraction of the model dispatcher Run.run: mrun with ExtrOcamlBasic + ExtrOcamlZBigInt (zarith), mrun_ref with ExtrOcamlBasic only; a sample of every run is compared between the two, in the thorough tier also with vm_compute inside Coq'},
   {'name': 'harness', 'path': 'harness/', 'serves_properties': sorted(CLAIMED),
    'kind_free_text': 'Python differential correspondence check: implementation from /repo/src vs extracted model; generators, shrinking, evidence'},
  ],
